@@ -130,6 +130,7 @@ def generic_core(ctx, rep):
     _r(generic_tables.rule_edge, ctx, rep)
     _r(generic_tables.rule_eqn, ctx, rep)
     _r(generic_tables.rule_worklist, ctx, rep)
+    _r(generic_tables.rule_fixpoint_programs, ctx, rep)
     _r(stack_rules.rule_stack_discipline, ctx, rep, full=False)
     _r(spelling.rule_constant_block, ctx, rep)
     _r(effects.rule_pure_lattice, ctx, rep)
@@ -208,6 +209,7 @@ def c13(ctx, rep):
     _r(detectors.rule_group_verdicts, ctx, rep)
     _r(detectors.rule_offset_inversion, ctx, rep)
     _r(detectors.rule_group_config, ctx, rep)
+    _r(output_rules.rule_main_group, ctx, rep)
     _r(detectors.rule_validated_in_block, ctx, rep)
     _r(gtxn_tables.rule_index_classification, ctx, rep)
     _r(gtxn_tables.rule_key_matching, ctx, rep)
